@@ -38,7 +38,7 @@ var (
 // Store call of a history hands over a fresh object with its own token).
 type op struct {
 	kind, f, b int
-	tok     int
+	tok        int
 }
 
 func (o op) String() string {
